@@ -174,6 +174,8 @@ def r191(ctx, res):
 class _Fold:
     """constant folding of the setters' own expressions (no library code is run)"""
 
+    funcs: Dict[str, FunctionInfo] = {}  # single-return helper functions of the configuration module (set by r192)
+
     def __init__(self, env):
         self.env = dict(env)
 
@@ -211,11 +213,19 @@ class _Fold:
                 return {"int": int, "float": float, "abs": abs}[fn](*args)
             if fn in ("pow", "math.pow"):
                 return math.pow(*args)
+            h = self.funcs.get(fn)
+            if h is not None and len(h.params) == len(args) and not e.keywords:
+                # a pure helper of the configuration module (`_eps_for(sig_figures)`): fold its single return expression
+                body = [s_ for s_ in h.node.body if not (isinstance(s_, ast.Expr) and isinstance(s_.value, ast.Constant))]
+                if len(body) == 1 and isinstance(body[0], ast.Return) and body[0].value is not None:
+                    sub = _Fold(dict(self.env, **dict(zip(h.params, args))))
+                    return sub.ev(body[0].value)
         raise AnalysisError("utils/constant.py: cannot constant-fold `%s`" % txt(e))
 
 
 def r192(ctx, res):
     cm, tracked, setters, getters = config_names(ctx)
+    _Fold.funcs = {k: f for k, f in cm.functions.items() if f not in setters and f not in getters}
     # module initialisers
     env = {}
     for st in cm.tree.body:
